@@ -10,6 +10,7 @@ import (
 	"strings"
 	"testing"
 	"time"
+	"verif/h/vsel"
 
 	"github.com/nats-io/nats.go"
 	"github.com/simpleiot/simpleiot/client"
@@ -357,6 +358,12 @@ func c02Body(t *testing.T, depth, devBound int) mc.Body {
 				return
 			}
 			defer g.stop()
+			// when the sync client's select finds several ready cases the explorer decides (first in source
+			// order by default; any other one is a scheduling deviation), not the Go runtime
+			vsel.SetHook(func(ready []int) int {
+				return x.Deviate(len(ready), fmt.Sprintf("sync client select: ready cases %v", ready))
+			})
+			defer vsel.SetHook(nil)
 			// initial catch-up
 			g.s.run(3500 * time.Millisecond)
 			g.s.quiesce()
